@@ -349,6 +349,100 @@ def g6_error_by_difference_of_squares(fn):
     return findings
 
 
+def g8_meshgrid_indexing(fn):
+    """np.meshgrid defaults to indexing='xy', which swaps the first two axes.  pyiga enumerates tensor-product indices in C
+    order (first axis slowest) everywhere -- np.unravel_index, itertools.product, ravel() of coefficient arrays -- so a
+    Cartesian product built with the default indexing is transposed against everything it is paired with as soon as both
+    of the first two axes have more than one entry."""
+    findings = []
+    for c in own_nodes(fn):
+        if isinstance(c, ast.Call) and (call_name(c) or '') in ('np.meshgrid', 'numpy.meshgrid'):
+            ix = [kw.value for kw in c.keywords if kw.arg == 'indexing']
+            if not ix or not (isinstance(ix[0], ast.Constant) and ix[0].value == 'ij'):
+                n_in = len(c.args) + (2 if any(isinstance(a, ast.Starred) for a in c.args) else 0)
+                if n_in >= 2:
+                    findings.append(('G8', c, '`%s` uses the default indexing=\'xy\': the first two axes of the product are swapped relative to the C-order '
+                                              '(\'ij\') enumeration used by itertools.product / ravel() / unravel_index throughout the package' % src(c)[:70]))
+    return findings
+
+
+def g9_optional_number_tested_by_truth(fn):
+    """A parameter with default None that is used as a number (an index or an operand of arithmetic) is tested by its truth
+    value: 0 is a valid number but falsy, so the call with 0 takes the `not given` branch."""
+    findings = []
+    args = fn.args.args
+    defaults = fn.args.defaults
+    opt = set()
+    for a, d in zip(args[len(args) - len(defaults):], defaults):
+        if isinstance(d, ast.Constant) and d.value is None:
+            opt.add(a.arg)
+    for a, d in zip(fn.args.kwonlyargs, fn.args.kw_defaults):
+        if d is not None and isinstance(d, ast.Constant) and d.value is None:
+            opt.add(a.arg)
+    if not opt:
+        return findings
+    numeric = set()
+    for n in ast.walk(fn):
+        if isinstance(n, ast.Subscript):
+            sl = n.slice
+            for x in ast.walk(sl):
+                if isinstance(x, ast.Name) and x.id in opt:
+                    numeric.add(x.id)
+        if isinstance(n, ast.BinOp) and isinstance(n.op, (ast.Add, ast.Sub, ast.Mult, ast.Div, ast.FloorDiv, ast.Mod, ast.Pow)):
+            for side in (n.left, n.right):
+                if isinstance(side, ast.Name) and side.id in opt:
+                    numeric.add(side.id)
+    reassigned = {t.id for s in ast.walk(fn) if isinstance(s, ast.Assign) for t in s.targets if isinstance(t, ast.Name)}
+    for n in own_nodes(fn):
+        test = None
+        if isinstance(n, (ast.If, ast.While, ast.IfExp)):
+            test = n.test
+        if test is None:
+            continue
+        lits = guards.literals(test, True) + guards.literals(test, False)
+        for (_t, _p, lit) in lits:
+            if isinstance(lit, ast.Name) and lit.id in (numeric - reassigned):
+                findings.append(('G9', n, 'the optional parameter `%s` (default None) is used as a number but tested by its truth value in `%s`: the '
+                                          'valid value 0 is falsy and takes the branch meant for "not given"' % (lit.id, src(test)[:60])))
+                break
+    return findings
+
+
+def g10_optional_flag_defaulted_by_or(fn, explicit_false_names):
+    """`p = p or default` (or `p or default` used in place of p) for an optional parameter p=None whose explicit falsy value
+    is meaningful -- somewhere in the package the option is passed as p=False / p=0: the explicit False is replaced by the
+    default."""
+    findings = []
+    args = fn.args.args
+    defaults = fn.args.defaults
+    opt = set()
+    for a, d in zip(args[len(args) - len(defaults):], defaults):
+        if isinstance(d, ast.Constant) and d.value is None:
+            opt.add(a.arg)
+    for n in own_nodes(fn):
+        if isinstance(n, ast.BoolOp) and isinstance(n.op, ast.Or) and isinstance(n.values[0], ast.Name) and n.values[0].id in opt \
+                and n.values[0].id in explicit_false_names:
+            p = n.values[0].id
+            findings.append(('G10', n, '`%s` replaces an explicit falsy `%s` by the fallback, but the option is passed as %s=False elsewhere in the '
+                                       'package (it is a tri-state: None = use the default, False = off): an explicit False silently becomes the default'
+                             % (src(n)[:60], p, p)))
+    return findings
+
+
+def explicit_false_options(prog):
+    """names of keyword arguments that are passed an explicit False / 0 somewhere in the package"""
+    out = set()
+    for u in prog.units.values():
+        if not u.modname.startswith('pyiga'):
+            continue
+        for c in ast.walk(u.tree):
+            if isinstance(c, ast.Call):
+                for kw in c.keywords:
+                    if kw.arg and isinstance(kw.value, ast.Constant) and (kw.value.value is False or (kw.value.value == 0 and not isinstance(kw.value.value, bool))):
+                        out.add(kw.arg)
+    return out
+
+
 TOLERANT_EQ_NAMES = {
     # class with a tolerance-based __eq__ (np.allclose) -> the names its instances carry throughout pyiga (confirmed by reading)
     'KnotVector': ('kv', 'kv1', 'kv2', 'knotvec', 'knotvector', 'kvs'),
@@ -411,19 +505,23 @@ def run(ctx, rule):
     n = sites = 0
     classes = set()
     tolerant = tolerant_eq_classes(ctx.prog)
+    falsy_opts = explicit_false_options(ctx.prog)
     for q, f in sorted(ctx.prog.functions.items()):
         if not any(fnmatch.fnmatchcase(q, pat) for pat in scope):
             continue
         n += 1
+        for kind, node, msg in g10_optional_flag_defaulted_by_or(f.node, falsy_opts):
+            ctx.violated(rule, f.qual, '%s optional argument: %s' % (kind, src(node)[:80]), node, msg)
         if tolerant and f.unit.lang == 'py':
             for kind, node, msg in g7_memo_hit_by_tolerant_equality(f.node, f.unit.tree, tolerant):
                 ctx.violated(rule, f.qual, '%s memo discipline: %s' % (kind, src(node)[:80]), node, msg)
         sites += len(memo_sites(f.node))
         if f.cls is not None:
             classes.add(f.cls.qual)
-        for det in (g1_stale_after_miss, g2_underkeyed, g4_rebound_parameter_forwarded, g6_error_by_difference_of_squares):
+        for det in (g1_stale_after_miss, g2_underkeyed, g4_rebound_parameter_forwarded, g6_error_by_difference_of_squares, g8_meshgrid_indexing,
+                    g9_optional_number_tested_by_truth):
             for kind, node, msg in det(f.node):
-                what = {'G4': 'option forwarding', 'G6': 'error estimate'}.get(kind, 'memo discipline')
+                what = {'G4': 'option forwarding', 'G6': 'error estimate', 'G8': 'index order', 'G9': 'optional argument'}.get(kind, 'memo discipline')
                 ctx.violated(rule, f.qual, '%s %s: %s' % (kind, what, src(node)[:80]), node, msg)
     for cq in sorted(classes):
         c = ctx.prog.classes.get(cq)
